@@ -29,6 +29,7 @@ func vBigNondet(label string) vBig {
 }
 func vBigInt64(x int64) vBig   { return vBig{big.NewInt(x)} }
 func vBigUint64(x uint64) vBig { return vBig{new(big.Int).SetUint64(x)} }
+func vBigToUint64(a vBig) uint64 { return new(big.Int).And(a.v(), new(big.Int).SetUint64(^uint64(0))).Uint64() }
 func vBigAdd(a, b vBig) vBig   { return vBig{new(big.Int).Add(a.v(), b.v())} }
 func vBigSub(a, b vBig) vBig   { return vBig{new(big.Int).Sub(a.v(), b.v())} }
 func vBigMul(a, b vBig) vBig   { return vBig{new(big.Int).Mul(a.v(), b.v())} }
